@@ -56,6 +56,11 @@ type Scheduler struct {
 	Steps   int
 	MaxStep int
 	Err     string // "deadlock: ..." / "step limit"
+	// IdleIsDone: a state in which no thread is enabled, none waits for a shim mutex and the clock has
+	// been advanced to the horizon is the normal end (threads are servers blocked on their input).
+	IdleIsDone bool
+	Preempt    int
+	wake       chan struct{} // signalled when a thread parks or finishes
 }
 
 var active atomic.Pointer[Scheduler]
@@ -79,8 +84,8 @@ func (s *Scheduler) self() *thread {
 // Explore runs body with a scheduler installed. body must start the threads with Go (directly or
 // through rewritten `go` statements) and return; Explore then schedules them until all are done,
 // a deadlock is found or the step limit is hit. It must be called inside a synctest bubble.
-func Explore(choose Chooser, horizon time.Duration, body func()) *Scheduler {
-	s := &Scheduler{byGoid: map[int64]*thread{}, choose: choose, Horizon: horizon, MaxStep: 5000}
+func Explore(choose Chooser, horizon time.Duration, idleIsDone bool, body func()) *Scheduler {
+	s := &Scheduler{byGoid: map[int64]*thread{}, choose: choose, Horizon: horizon, MaxStep: 5000, IdleIsDone: idleIsDone, wake: make(chan struct{}, 1)}
 	if !active.CompareAndSwap(nil, s) {
 		panic("vsync: nested Explore")
 	}
@@ -94,6 +99,10 @@ func (s *Scheduler) loop() {
 	waited := time.Duration(0)
 	for {
 		synctest.Wait()
+		select {
+		case <-s.wake:
+		default:
+		}
 		s.mu.Lock()
 		var enabled []*thread
 		alive := 0
@@ -115,25 +124,39 @@ func (s *Scheduler) loop() {
 			if waited >= s.Horizon {
 				s.mu.Lock()
 				var desc []string
+				onMutex := false
 				for _, t := range s.threads {
 					if t.st != done {
 						w := "a real primitive"
 						if t.st == blocked {
 							w = "a mutex"
+							onMutex = true
 						}
 						desc = append(desc, fmt.Sprintf("%s blocked in %s after %q", t.name, w, t.at))
 					}
+				}
+				if s.IdleIsDone && !onMutex {
+					s.mu.Unlock()
+					return
 				}
 				s.Err = fmt.Sprintf("deadlock: no thread can run (horizon %v): %v", s.Horizon, desc)
 				s.mu.Unlock()
 				return
 			}
-			step := s.Horizon / 8
-			if step <= 0 {
-				step = time.Millisecond
+			// Let virtual time run to the earliest pending timer: the bubble advances the clock only while
+			// everything is durably blocked, the woken thread runs to its next scheduling point and signals.
+			t0 := time.Now()
+			tm := time.NewTimer(s.Horizon - waited)
+			select {
+			case <-s.wake:
+			case <-tm.C:
 			}
-			time.Sleep(step)
-			waited += step
+			tm.Stop()
+			if d := time.Since(t0); d > 0 {
+				waited += d
+			} else {
+				waited += time.Nanosecond
+			}
 			continue
 		}
 		waited = 0
@@ -163,6 +186,9 @@ func (s *Scheduler) loop() {
 		idx := 0
 		if len(order) > 1 {
 			idx = s.choose("sched", len(order), !curEnabled)
+		}
+		if idx != 0 && curEnabled {
+			s.Preempt++
 		}
 		t := order[idx]
 		s.mu.Lock()
@@ -204,6 +230,7 @@ func GoNamed(name string, f func()) {
 			t.st = done
 			delete(s.byGoid, id)
 			s.mu.Unlock()
+			s.signal()
 		}()
 		f()
 	}()
@@ -222,7 +249,15 @@ func Point(label string) {
 	s.mu.Lock()
 	t.st, t.at = parked, label
 	s.mu.Unlock()
+	s.signal()
 	<-t.grant
+}
+
+func (s *Scheduler) signal() {
+	select {
+	case s.wake <- struct{}{}:
+	default:
+	}
 }
 
 // ---- Mutex ---------------------------------------------------------------------------------------------
@@ -376,3 +411,42 @@ type (
 )
 
 func NewCond(l Locker) *Cond { return gosync.NewCond(l) }
+
+// ---- map iteration order ---------------------------------------------------------------------------------
+
+// MapOrder, when set by a harness, decides the iteration order of the maps whose range statements
+// tools/instr routes through RangeOrder: it is asked for a rotation of the sorted key list.
+var MapOrder func(label string, n int) int
+
+// RangeOrder returns the keys of m in the order the code under test is to visit them. Go leaves the
+// order of map iteration unspecified; under a scheduler (or when MapOrder is set) the keys are sorted by
+// key(k) and then rotated by an explored choice, so that the order is owned by the harness. Otherwise the
+// native order is kept and key is never called.
+func RangeOrder[K comparable, V any](m map[K]V, key func(K) string) []K {
+	keys := make([]K, 0, len(m))
+	for k := range m {
+		keys = append(keys, k)
+	}
+	s := active.Load()
+	if (s == nil && MapOrder == nil) || len(keys) < 2 {
+		return keys
+	}
+	ks := make([]string, len(keys))
+	for i, k := range keys {
+		ks[i] = key(k)
+	}
+	// insertion sort by ks (tiny maps)
+	for i := 1; i < len(keys); i++ {
+		for j := i; j > 0 && ks[j] < ks[j-1]; j-- {
+			ks[j], ks[j-1] = ks[j-1], ks[j]
+			keys[j], keys[j-1] = keys[j-1], keys[j]
+		}
+	}
+	r := 0
+	if MapOrder != nil {
+		r = MapOrder("map-order", len(keys))
+	} else if s != nil {
+		r = s.choose("map-order", len(keys), true)
+	}
+	return append(append([]K{}, keys[r:]...), keys[:r]...)
+}
